@@ -190,30 +190,40 @@ def observe(res):
 # ------------------------------------------------------------------ oracle (statement, literally)
 
 def classify_cause(key, raw, tc, info):
-    """why a stored curve may differ from the scored one — used only to label a violation, never to excuse one
-    that is not listed in known_findings"""
+    """where in the box the raw vector lies, in terms of the guards of the read-back analysis (Properties/C12.v).
+    Used only to LABEL a violation (signature key "cause"); a violation is excused only if known_findings lists that label."""
     t_min, t_max, t_min_seg, t_max_seg = tc
     if key in ("hdd_tidd_cdd_smooth", "hdd_tidd_cdd"):
-        hb, cb = (raw[0], raw[3]) if key == "hdd_tidd_cdd_smooth" else (raw[0], raw[2])
-        hbeta, cbeta = (raw[1], raw[4]) if key == "hdd_tidd_cdd_smooth" else (raw[1], raw[3])
-        ks = (raw[2], raw[5]) if key == "hdd_tidd_cdd_smooth" else (0.0, 0.0)
-        smooth = (ks[0] >= 0.01 or ks[1] >= 0.01) and hb != cb
-        if cb < hb:
-            return "H: crossed balance points with smoothing" if smooth else "crossed balance points, no smoothing"
-        lo_b, hi_b = min(hb, cb), max(hb, cb)
-        at_end = lo_b != hi_b and (hi_b >= t_max or lo_b <= t_min)
-        if at_end and smooth:
-            return "end-of-range slope dropped under smoothing"
-        if hi_b > t_max_seg or lo_b < t_min_seg:
+        sm = key == "hdd_tidd_cdd_smooth"
+        hb, hbeta, ph, cb, cbeta, pc = (raw[0], raw[1], raw[2], raw[3], raw[4], raw[5]) if sm else \
+            (raw[0], raw[1], 0.0, raw[2], raw[3], 0.0)
+        crossed = cb < hb
+        smoothing = sm and hb != cb and not (ph < 0.01 and pc < 0.01)
+        if crossed and smoothing:
+            return "H: crossed balance points with smoothing"
+        if crossed:
+            hb, hbeta, ph, cb, cbeta, pc = cb, cbeta, pc, hb, hbeta, ph
+        if hb < t_min_seg or cb > t_max_seg:
             return "balance point outside [T_min_seg,T_max_seg] (initial-fit box)"
-        if at_end:
-            return "end-of-range slope dropped"
+        at_end = hb != cb and (cb >= t_max or hb <= t_min)
+        if at_end and smoothing:
+            return "end-of-range slope dropped under smoothing"
+        if smoothing and ((hbeta == 0 and ph != 0) or (cbeta == 0 and pc != 0)):
+            return "zero slope with non-zero smoothing fraction"
+        if smoothing and ph + pc >= 1 - 1e-9:
+            # the arithmetic of get_smooth_coeffs in binary64 (finding C11-F2): the shifted balance points meet over the
+            # reals and may cross by one ulp, then full_model swaps the two sides while scoring
+            a, b = ph, pc
+            if a + b > 1:
+                a, b = a / (a + b), b / (a + b)
+            if hb + a * (cb - hb) > cb - b * (cb - hb):
+                return "shifted balance points cross by rounding (sum of fractions >= 1)"
         return "none"
     if key in ("c_hdd_tidd_smooth", "c_hdd_tidd"):
         bp, beta = raw[0], raw[1]
         if info.get("pinned"):
             return "pinned one-sided balance point (%s) stored as T_%s_seg" % (info["pinned"], info["pinned"][2:])
-        if key == "c_hdd_tidd" and (bp > t_max_seg or bp < t_min_seg) and beta != 0:
+        if (bp > t_max_seg or bp < t_min_seg) and beta != 0:
             return "balance point outside [T_min_seg,T_max_seg] (initial-fit box)"
         return "none"
     return "none"
@@ -233,10 +243,11 @@ def admissibility(named, tc, q, f_unc=None):
         bad.append("model type agrees with the coefficients present")
         return bad
     hb, cb = named["hdd_bp"], named["cdd_bp"]
-    if hb is not None and cb is not None and hb > cb:
+    eps = 1e-9 * max(1.0, abs(t_min), abs(t_max))      # binary64 rounding of bp + k, bp - k
+    if hb is not None and cb is not None and hb > cb + eps:
         bad.append("heating balance point not above the cooling one")
     for b in (hb, cb):
-        if b is not None and not (t_min <= b <= t_max):
+        if b is not None and not (t_min - eps <= b <= t_max + eps):
             bad.append("balance point inside the observed temperature range")
     two = mt in ("hdd_tidd_cdd_smooth", "hdd_tidd_cdd")
     if named["hdd_beta"] is not None:
@@ -314,13 +325,13 @@ def process_component(run, acc, key, raw, T, info, res, stream, label, model_val
     run.dist(stream + "_cause", cause)
     base_sig = {"stream": stream, "key": key, "cause": cause}
     for clause in admissibility(obs[2], tc, q, float(res.f_unc)):
-        run.violation(dict(base_sig, clause=clause), "C12 %s: stored sub-model breaks '%s'" % (label, clause),
+        run.violation(dict(base_sig, clause=clause, **{"class": "admissibility"}), "C12 %s: stored sub-model breaks '%s'" % (label, clause),
                       case={"key": key, "raw": raw, "tc": tc, "info": info}, observation={"named": obs[2], "x": obs[1]},
                       generator="c12." + stream)
     mism, d = curve_mismatch(sc, st)
     if mism:
         i = int(np.nanargmax(np.abs(np.asarray(sc) - np.asarray(st)))) if np.isfinite(d) else 0
-        run.violation(dict(base_sig, clause="stored curve == scored curve"),
+        run.violation(dict(base_sig, clause="stored curve == scored curve", **{"class": "readback"}),
                       "C12 %s: the kept coefficients do not describe the curve the optimiser scored (max |diff| %.3g)" % (label, d),
                       case={"key": key, "raw": raw, "tc": tc, "info": info},
                       observation={"T": float(Tu[i]), "scored": float(sc[i]), "stored": float(st[i]), "named": obs[2]},
@@ -328,7 +339,7 @@ def process_component(run, acc, key, raw, T, info, res, stream, label, model_val
     if model_vals is not None:
         mism2, d2 = curve_mismatch(model_vals, res.eval(np.asarray(T, float))[0])
         if mism2:
-            run.violation(dict(base_sig, clause="eval(T) == fitted values"),
+            run.violation(dict(base_sig, clause="eval(T) == fitted values", **{"class": "readback"}),
                           "C12 %s: component.eval(component.T) differs from component.model (max |diff| %.3g)" % (label, d2),
                           case={"key": key, "raw": raw, "tc": tc, "info": info}, observation={"named": obs[2]},
                           generator="c12." + stream)
@@ -363,6 +374,34 @@ def flush(run, acc, stream):
         for i in bad[5:]:
             run.corr_failures.append({"stream": "%s_%s" % (stream, what), "case": {"key": acc["meta"][i]["key"],
                                                                                  "raw": acc["meta"][i]["raw"]}})
+
+
+def T_for(tc, n_seg, m=24):
+    lo = np.linspace(tc[0], tc[2], n_seg + 1)
+    hi = np.linspace(tc[3], tc[1], n_seg)
+    mid = np.linspace(tc[2], tc[3], m + 2)[1:-1]
+    return np.concatenate([lo, mid, hi])
+
+
+WITNESSES = [   # the refuted witnesses of Properties/C12.v, replayed on the real OptimizedResult
+    ("hdd_tidd_cdd_smooth", [60.0, 1.0, 0.5, 50.0, 2.0, 0.5, 20.0], [10.0, 90.0, 14.0, 85.0], None),
+    ("c_hdd_tidd", [90.0, -1.0, 20.0], [10.0, 90.0, 14.0, 85.0], "T_max"),
+    ("c_hdd_tidd", [10.0, 1.0, 20.0], [10.0, 90.0, 14.0, 85.0], "T_min"),
+    ("hdd_tidd_cdd_smooth", [10.0, 2.0, 0.5, 60.0, 0.0, 0.0, 20.0], [10.0, 90.0, 10.0, 90.0], None),
+    ("hdd_tidd_cdd_smooth", [50.0, 4.0, 0.5, 70.0, 0.0, 0.875, 20.0], [10.0, 90.0, 14.0, 85.0], None),
+]
+
+
+def stream_witness(run):
+    n_seg = settings().segment_minimum_count
+    acc = {"refine": [], "curves": [], "meta": []}
+    for k, (key, raw, tc, pinned) in enumerate(WITNESSES):
+        T = T_for(tc, n_seg)
+        res = build_result(key, raw, T, rng_seed=k)
+        info = {"q": [0.0, 100.0], "pinned": pinned, "initial_box": False}
+        process_component(run, acc, key, raw, T, info, res, "witness", "witness %s" % key, q=info["q"])
+        run.count(vlib.sha(["witness", key, raw, tc]), True)
+    flush(run, acc, "witness")
 
 
 def stream_refine(run, n):
@@ -404,6 +443,12 @@ def stream_bounds(run, n):
             rows = [row() for _ in range(m)]
             return [r if r[0] != r[1] else [r[0], r[0] + 1.0] for r in rows]
         nb, b0 = distinct_rows(nrow), distinct_rows(nrow)
+        # slope / smoothing rows come from get_bnds(x0) around a non-negative x0: their upper end is positive
+        for rows_ in (nb, b0):
+            for r_ in rows_[1:-1]:
+                r_[1] = abs(r_[1]) + 0.5
+                if r_[0] > 0 and run.rng.random() < 0.5:
+                    r_[0] = -r_[0]
         pinned = layout in (2, 3) and run.rng.random() < 0.3
         if pinned:
             b0[0] = [b0[0][0], b0[0][0]]
@@ -460,6 +505,33 @@ def stream_bounds(run, n):
         return
     for i in bad[:5]:
         run.corr_failures.append({"stream": "bounds", "case": kept[i], "impl": kept[i]["out"]})
+
+
+# ------------------------------------------------------------------ from_np_arrays directly
+
+def stream_from_np(run, n):
+    from opendsm.eemeter.models.daily.parameters import ModelCoefficients
+    terms, kept = [], []
+    for k in range(n):
+        key = KEYS[k % 5]
+        m = len(COEF_ID[key])
+        x = [float(run.rng.choice([0.0, 1.0, -1.0, run.rng.uniform(-5, 100), run.rng.randrange(-20, 400) / 4.0])) for _ in range(m)]
+        nc = ModelCoefficients.from_np_arrays(np.array(x), list(COEF_ID[key]))
+        d = {"model_type": nc.model_type.value, "intercept": float(nc.intercept)}
+        for f in FIELDS:
+            v = getattr(nc, f)
+            d[f] = None if v is None else float(v)
+        terms.append("(%s, %s, Some %s)" % (COQ_KEY[key], flist(x), coq_named(d)))
+        kept.append({"key": key, "x": x, "named": d})
+        run.count(vlib.sha(["from_np", key, x]), key != "tidd")
+    bad = run.coq_cases("from_np", IMPORTS, "", terms, "check_from_np", shard=400)
+    if bad is None:
+        run.proof_ok = False
+        return
+    for i in bad[:5]:
+        c = kept[i]
+        run.corr_failures.append({"stream": "from_np", "case": {"key": c["key"], "x": c["x"]}, "impl": c["named"],
+                                  "model": run.coq_eval(IMPORTS, "", "from_np_arrays F %s %s" % (COQ_KEY[c["key"]], flist(c["x"])))})
 
 
 # ------------------------------------------------------------------ real fits
@@ -530,7 +602,7 @@ def stream_fits(run, n):
             run.count(vlib.sha([ds, where, comp]), key != "tidd")
             # recorded limits are those of the days the component was fitted on
             seg = model._meter_segment(comp)["temperature"].to_numpy(dtype=float)
-            n_seg = settings().segment_minimum_count
+            n_seg = res.settings.segment_minimum_count
             want = [float(np.min(seg)), float(np.max(seg)), float(np.partition(seg, n_seg)[n_seg]),
                     float(np.partition(seg, -n_seg)[-n_seg])]
             if want != tc:
@@ -610,10 +682,13 @@ def main():
             gen_dataset = lambda rng, k: ds  # noqa
             stream_fits(run, 1)
         run.finish()
-    stream_refine(run, run.n(3000, 150000))
-    stream_bounds(run, run.n(1000, 20000))
+    if os.environ.get("C12_ONLYFITS") != "1":
+        stream_witness(run)
+        stream_refine(run, run.n(2000, 60000))
+        stream_bounds(run, run.n(600, 20000))
+        stream_from_np(run, run.n(400, 10000))
     if os.environ.get("C12_NOFITS") != "1":
-        stream_fits(run, run.n(5, 150))
+        stream_fits(run, run.n(10, 200))
     run.finish()
 
 
